@@ -222,7 +222,8 @@ def gen_threshold(rng, allow_int=True):
     if c < 0.85:
         return rng.choice([0.5, 0.25, 0.75, 0.125, 1.0]), 'dyadic'
     if c < 0.92:
-        return math.nextafter(rng.choice(THRESH_DECIMALS), rng.choice([0.0, 2.0])), 'ulp'
+        x = math.nextafter(rng.choice(THRESH_DECIMALS), rng.choice([0.0, 2.0]))
+        return (x if x <= 1.0 else math.nextafter(1.0, 0.0)), 'ulp'
     if c < 0.96 and allow_int:
         return 1, 'int1'
     return rng.uniform(0.001, 0.05), 'small'
